@@ -397,7 +397,14 @@ func (an *Analysis) IsStripFields(in ssa.Instruction) bool {
 	instrsOf(body, func(i2 ssa.Instruction) {
 		if c2 := callOf(i2); c2 != nil && callIsMethod(c2, "net/http", "Header", "Del") {
 			r, _ := recvAndArgs(c2)
-			if an.HeaderClass(r) == "rs" {
+			// the header section of the stored response (its Trailer member is a Header too: C02.12 looks at that one)
+			isTrailer := false
+			if u, ok := peel(r).(*ssa.UnOp); ok && u.Op == token.MUL {
+				if fa, ok := u.X.(*ssa.FieldAddr); ok && fieldName(fa.X.Type(), fa.Field) == "Trailer" {
+					isTrailer = true
+				}
+			}
+			if an.HeaderClass(r) == "rs" && !isTrailer {
 				dels = true
 			}
 		}
